@@ -201,6 +201,45 @@ Proof.
   now rewrite app_nil_r.
 Qed.
 
+(* ---------- lfsDropHeader: headers are a LIST; every entry with exactly this key goes ---------- *)
+Inductive sublist {A} : list A -> list A -> Prop :=
+| sub_nil : sublist [] []
+| sub_keep x l l' : sublist l l' -> sublist (x :: l) (x :: l')
+| sub_skip x l l' : sublist l l' -> sublist l (x :: l').
+
+Lemma drop_header_filter k hs :
+  drop_header k hs = filter (fun h => negb (bytes_eqb (h_key h) k)) hs.
+Proof. reflexivity. Qed.
+
+Lemma drop_header_none k hs : find_header k (drop_header k hs) = None.
+Proof.
+  induction hs as [|h hs IH]; cbn; [reflexivity|].
+  destruct (bytes_eqb (h_key h) k) eqn:E; cbn; [exact IH|]. now rewrite E.
+Qed.
+
+Lemma drop_header_in k hs h : In h (drop_header k hs) <-> In h hs /\ h_key h <> k.
+Proof.
+  unfold drop_header. rewrite filter_In. split; intros [H1 H2]; split; try exact H1.
+  - apply negb_true_iff, bytes_eqb_neq in H2. exact H2.
+  - apply negb_true_iff, bytes_eqb_neq. exact H2.
+Qed.
+
+Lemma drop_header_sublist k hs : sublist (drop_header k hs) hs.
+Proof.
+  induction hs as [|h hs IH]; cbn; [constructor|].
+  destruct (negb (bytes_eqb (h_key h) k)); constructor; exact IH.
+Qed.
+
+(* a key other than the flag key is untouched, including its multiplicity and order *)
+Lemma drop_header_other k k' hs : k' <> k ->
+  filter (fun h => bytes_eqb (h_key h) k') (drop_header k hs) = filter (fun h => bytes_eqb (h_key h) k') hs.
+Proof.
+  intros Hne. induction hs as [|h hs IH]; cbn; [reflexivity|].
+  destruct (bytes_eqb (h_key h) k) eqn:E; cbn.
+  - apply bytes_eqb_eq in E. assert (bytes_eqb (h_key h) k' = false) as -> by (apply bytes_eqb_neq; congruence). exact IH.
+  - destruct (bytes_eqb (h_key h) k'); [f_equal|]; exact IH.
+Qed.
+
 Lemma store_get_skip key p new s :
   ~ In key (map fst new) -> store_get key (new ++ (key, p) :: s) = Some p.
 Proof.
@@ -296,7 +335,7 @@ Section Proofs.
   Definition rec_rel (cfg : config) (store : list (bytes * bytes)) (r r' : rec) : Prop :=
     if flagged r then
       r_attr r' = r_attr r /\ r_ts r' = r_ts r /\ r_off r' = r_off r /\ r_key r' = r_key r /\
-      r_hdrs r' = drop_header s_LFS_BLOB (r_hdrs r) /\
+      r_hdrs r' = drop_header s_LFS_BLOB (r_hdrs r) /\ flagged r' = false /\
       exists env, r_val r' = Some (enc_env env) /\ e_bucket env = c_bucket cfg /\
                   store_get (e_key env) store = Some (optb (r_val r)) /\
                   e_size env = zlen (optb (r_val r)) /\ e_sha env = hashf 0 (optb (r_val r))
@@ -327,6 +366,7 @@ Section Proofs.
       constructor.
       + unfold rec_rel. destruct (flagged r) eqn:Hf.
         * destruct (process_record_flagged _ _ _ _ _ _ Hf E1) as (_ & A1 & A2 & A3 & A4 & A5 & key & created & env & S1 & S2 & V & K & B & Sz & Sh).
+          assert (Hnf : flagged r1 = false) by (unfold flagged; rewrite A5, drop_header_none; reflexivity).
           repeat split; try assumption. exists env. repeat split; try assumption.
           destruct (ext_trans _ _ _ X2 HF) as (used & new & U1 & U2 & U3).
           rewrite U2, S2, K. apply store_get_skip.
